@@ -10,6 +10,7 @@ LEVEL = "exploration"
 RULE = ("cases are histories of up to 12 operations over up to 3 lists ([int...], [str...], nested [[int...]...], [int?...]) "
         "and 2 maps (map[str,int]) and their aliases / clones: push, remove, index read / assignment / op=, reverse, join "
         "(incl. self- and alias-join), clear, clone, map / filter with logging and capturing callbacks, index_of, len, ==, "
+        "an optional-element list that also stores present optionals produced by built-ins next to a shadow list of the same plain values (the two must stay ==), "
         "string concatenation of elements; map literal, index read/assignment, replace, remove, contains_key, len, keys, "
         "values, pairs, clear, clone; indices from {-1, 0, 1, len-1, len, len+1}; every live container is printed after each "
         "step (maps through len + lookups of the key universe, never by printing the map). Oracle = reference interpreter "
@@ -215,13 +216,31 @@ def cases(draw):
         elif op == "optlist":
             if not has_opt:
                 stmts.append(("decl", "lo", ("list", ("opt", "int")), ("list", [I(1), ("nil",), I(3)]), ()))
+                # the shadow list receives the same values as PLAIN ints / nil, so `lo == lo2` must stay true even when lo
+                # holds present optionals produced by built-ins (index_of, map remove)
+                stmts.append(("decl", "lo2", ("list", ("opt", "int")), ("list", [I(1), ("nil",), I(3)]), ()))
                 has_opt = True
-            k = g.choice(["push", "set", "read", "isnil"])
+            k = g.choice(["push", "set", "read", "isnil", "pushfrom", "pushfrom", "eqshadow"])
             g.label("optional-elements")
             if k == "push":
-                stmts.append(("expr", ("mcall", V("lo"), "push", [I(g.int(0, 9))])))
+                v = I(g.int(0, 9))
+                stmts.append(("expr", ("mcall", V("lo"), "push", [v])))
+                stmts.append(("expr", ("mcall", V("lo2"), "push", [v])))
             elif k == "set":
-                stmts.append(("seti", V("lo"), I(g.int(0, 2)), I(g.int(0, 9))))
+                ix, v = I(g.int(0, 2)), I(g.int(0, 9))
+                stmts.append(("seti", V("lo"), ix, v))
+                stmts.append(("seti", V("lo2"), ix, v))
+            elif k == "pushfrom":
+                g.label("optional-from-builtin-stored-in-list")
+                src = ("mcall", V(g.choice(ints)), "index_of", [I(g.int(0, 9))])
+                stmts.append(("decl", "tmpo", ("opt", "int"), src, ()))
+                stmts.append(("expr", ("mcall", V("lo"), "push", [V("tmpo")])))
+                stmts.append(("if", ("bin", "==", V("tmpo"), ("nil",)), [("expr", ("mcall", V("lo2"), "push", [("nil",)]))],
+                              [("expr", ("mcall", V("lo2"), "push", [("bin", "+", ("or", V("tmpo"), I(0)), I(0))]))]))
+                stmts.append(("print", ("bin", "==", V("lo"), V("lo2"))))
+            elif k == "eqshadow":
+                stmts.append(("print", ("bin", "==", V("lo"), V("lo2"))))
+                stmts.append(("print", ("bin", "==", V("lo2"), V("lo"))))
             elif k == "read":
                 stmts.append(("print", ("or", ("index", V("lo"), I(g.int(0, 2))), V("neg1"))))
             else:
@@ -330,7 +349,7 @@ def check(case):
             if os.environ.get("MSV_DEBUG"):
                 print("REJECTED:\n" + hist + "\n" + run.stdout[:800])
             return r
-        feats = [l for l in case["labels"] if l in ("self-join",)]
+        feats = [l for l in case["labels"] if l in ("self-join", "optional-from-builtin-stored-in-list")]
         if "join(" in hist:
             feats.append("join")
         r.failure = fail("; ".join(fails) + "\nhistory:\n" + hist, "C13:%s:%s:%s" % ("stdout" if run.stdout != out else "exit", run.klass, ",".join(sorted(set(feats)))), sc, case={"history": hist})
